@@ -156,8 +156,12 @@ def wfSeq : Nat → List Json → TokCtx → Nat → Nat → Bool
         | _ => false
       | _ => false)
 
-/-- the grammar of C05 on a token list -/
-def wfTokens (toks : List Json) (maxNested : Nat) : Bool := wfSeq 64 toks .block 0 maxNested
+/-- the grammar of C05 on a token list.  The fuel of `wfSeq` bounds the depth of the tree that can be checked: block
+containers nest at most `maxNested` deep (two levels per list: `list` > `list_item`), a text block adds one level,
+and the inline parser nests at most `2 * 200 + 3` levels (its nesting budget `Inl.inlineFuel = 200`: links nest in
+links through a raw `</a>`, so no smaller constant bound holds).  `parseDoc_wf` (MistuneProofs/C05Grammar.lean)
+proves that this fuel suffices for every tree the parser model returns. -/
+def wfTokens (toks : List Json) (maxNested : Nat) : Bool := wfSeq (2 * maxNested + 404) toks .block 0 maxNested
 
 /-! ### reader for the canonical text form (driver input) -/
 
